@@ -83,7 +83,7 @@ def oracle_for(noinfo):
 
 
 def streams(tier, rng):
-    A = ['P -100 %s 0 0' % vf.hx('hello'), 'P -113 %s 3 0' % vf.hx('abcdef'), 'P 5 - 0 0', 'P -222 %s 0 1' % vf.hx('lost'), 'O', 'C', 'N', 'S', 'P 7 %s 0 0' % vf.hx('a"b')]
+    A = ['P -100 %s 0 0' % vf.hx('hello'), 'P -200 00 0 0', 'P -113 %s 3 0' % vf.hx('abcdef'), 'P 5 - 0 0', 'P -222 %s 0 1' % vf.hx('lost'), 'O', 'C', 'N', 'S', 'P 7 %s 0 0' % vf.hx('a"b')]
     depth = 4 if tier == 'quick' else 6
     for flavor in FLAVORS:
         cases = []
@@ -104,7 +104,8 @@ def streams(tier, rng):
                     has = rng.random() < 0.7
                     t = bytes(rng.choice(b'abc ";\xe9') for _ in range(rng.choice([0, 1, 3, 10, 100, 254, 255, 256, 300]))) if has else b''
                     l = rng.choice([0, 0, 0, 1, 2, 5, 300]) if has else 0
-                    ops.append('P %d %s %d %d' % (rng.choice([-100, -113, -222, 5, -350, 0, 1234, -32768]), t.hex() if (has and t) else ('-' if not has else '00'[:0] or '-'), l, 1 if rng.random() < 0.15 else 0))
+                    # "00" is the empty C string (a text that is present but empty), "-" is no text at all (NULL)
+                    ops.append('P %d %s %d %d' % (rng.choice([-100, -113, -222, 5, -350, 0, 1234, -32768]), t.hex() if (has and t) else ('00' if has else '-'), l, 1 if rng.random() < 0.15 else 0))
                 else:
                     ops.append(rng.choice(['O', 'O', 'S', 'S', 'C', 'N', 'N']))
             cases.append('|'.join(['EQ %d 16' % cap] + ops))
